@@ -88,9 +88,14 @@ func genLpm(cfg Config, emit func(string, bool, []string)) {
 					add("len")
 				case x < 93:
 					add("dump")
-				case x < 96:
+				case x < 95:
 					add("keepiter %s %s %d", kinds[r.IntN(3)], d, l)
 					ni++
+				case x < 96:
+					// Commit and keep writing through the same Txn
+					add("commitkeep")
+					nv++
+					add("vdump %d", nv-1)
 				default:
 					v := r.IntN(nv)
 					switch r.IntN(4) {
@@ -273,6 +278,12 @@ func (e *lpmExec) wantLookup(ref map[string]lpmEnt, md []byte, plen int) (int, b
 
 func (e *lpmExec) Do(o *Out, f []string) string {
 	switch f[0] {
+	case "ins", "del", "lookup", "exact", "q", "len", "dump", "commit", "commitkeep", "keepiter":
+		if e.txn == nil {
+			return "bad-op" // ill-formed (shrunk) sequence: no open transaction
+		}
+	}
+	switch f[0] {
 	case "txn":
 		v := atoi(f[1])
 		e.txn = e.versions[v].Txn()
@@ -375,7 +386,7 @@ func (e *lpmExec) Do(o *Out, f []string) string {
 		return lpm.VerifDumpTxn(e.txn)
 	case "vdump":
 		return lpm.VerifDumpTrie(e.versions[atoi(f[1])])
-	case "commit":
+	case "commit", "commitkeep":
 		t := e.txn.Commit()
 		e.versions = append(e.versions, t)
 		cp := map[string]lpmEnt{}
@@ -383,7 +394,9 @@ func (e *lpmExec) Do(o *Out, f []string) string {
 			cp[k] = x
 		}
 		e.refs = append(e.refs, cp)
-		e.txn = nil
+		if f[0] == "commit" {
+			e.txn = nil
+		}
 		return fmt.Sprintf("v%d %d", len(e.versions)-1, t.Len())
 	case "abandon":
 		e.txn = nil
